@@ -45,6 +45,8 @@ THEOREMS = [
     'C17.SObj.reads_coherent', 'C17.SObj.reads_after_solve', 'C17.SObj.G_after_solve',
     # the DifferentialDisplacement object
     'C17.DObj.solve_current', 'C17.DObj.solve_forgets', 'C17.DObj.solve_list',
+    # no smallness assumption: the displacement is a minimal candidate image; atoms with one / no neighbour
+    'C17.displacement_minimal', 'C17.single_and_no_neighbour', 'C17.ddvectors_length',
 ]
 PARTIAL = {
     'matchPQ_pairing': 'pairing correctness of match_pq (matchPQ_pairing_partial, hence solveG/strainG_homogeneous) is proved '
@@ -1223,6 +1225,14 @@ def _search_slip_one(ctx, rng, ref, caseseed, it0, it, dyadic):
             fail('displacement:pbc', f"displacement(box_reference='initial') with system_1.pbc = {p2}, system_0.pbc = {list(pb)}: "
                  f'{d.text if k == -2 else d[k].tolist()} for atom {k}, expected (system_0 flags) {mi_disp[max(k, 0)].tolist()}',
                  k, pbc1=p2)
+        # slip vector: the reference system's periodicity applies to both separations (the list, the box and the
+        # flags are system_0's), so the rigid-slip value does not depend on the flags system_1 carries
+        sv = _guard(lambda: am.defect.slip_vector(s0, s1q, neighbors=nl0))
+        k = -2 if isinstance(sv, _Raised) else bad(sv, exp_slip, max(tol * 20, 1e-12), dec_slip)
+        if k is not None:
+            fail('slip_vector:pbc', f'slip_vector with system_1.pbc = {p2}, system_0.pbc = {list(pb)}: '
+                 f'{sv.text if k == -2 else (sv[k].tolist() if k >= 0 else sv.shape)} for atom {k}, expected {int(across[max(k, 0)])} '
+                 f'neighbours across x {rel[max(k, 0)].tolist()} = {exp_slip[max(k, 0)].tolist()} as with equal flags', k, pbc1=p2)
         I2, J2, dd2, dc2 = _expect_pairs(s0, s1q, (V, tuple(p2)), nl0, np)
         dd = _guard(lambda: am.defect.DifferentialDisplacement(s0, s1q, neighbors=nl0, reference=0).ddvectors)
         k = -2 if isinstance(dd, _Raised) else bad(dd, dd2, max(tol * 2, 1e-12), dc2)
